@@ -132,6 +132,10 @@ pub struct RpcFault {
 #[derive(Clone, Debug, Serialize, Deserialize, PartialEq)]
 pub enum Action {
     Cancel { party: usize, comp: u64 },
+    /// the output destination of `party` reacts to the first notification it receives by cancelling:
+    /// the Cancel command is enqueued from inside the delivery, i.e. while the task that delivers is
+    /// still running (the interleaving a second runtime thread would produce)
+    CancelFromOutput { party: usize, comp: u64 },
     /// a second schedule call with the party's own policy
     DupSchedule { party: usize, comp: u64 },
     StrayRun { party: usize, comp: u64 },
@@ -149,6 +153,10 @@ pub struct Injection {
     /// between: both commands are then queued at the state machine back to back
     #[serde(default)]
     pub burst: bool,
+    /// fire in the same step as the event that follows `after_events` events, *before* it: the
+    /// injected command is queued ahead of whatever that event makes the system do
+    #[serde(default)]
+    pub burst_before: bool,
 }
 
 #[derive(Clone, Debug, Serialize, Deserialize, PartialEq)]
@@ -170,6 +178,9 @@ pub struct ServerSpec {
     #[serde(default, skip_serializing_if = "Vec::is_empty")]
     pub no_schedule: Vec<(usize, u64)>,
     pub max_events: usize,
+    /// deliveries to the output destination are explorer events too ("slow destination")
+    #[serde(default)]
+    pub gate_outputs: bool,
 }
 
 #[derive(Clone, Debug)]
@@ -222,9 +233,12 @@ struct Hub {
     /// (party, comp) -> seq of "run sent to followers complete" and "mpc ended" for the overlap monitor
     leader_running: BTreeMap<(usize, u64), (u64, Option<u64>)>,
     auto_msgs: bool,
+    gate_outputs: bool,
     fired: BTreeMap<String, u64>,
     /// (leader, comp) for which the leader started sending run requests (it then holds a permit)
     run_started: Vec<(usize, u64)>,
+    /// armed "cancel from inside the output delivery": (party, comp, index of the call record)
+    cancel_on_output: Vec<(usize, u64, usize)>,
 }
 
 type SharedHub = Arc<Mutex<Hub>>;
@@ -392,6 +406,15 @@ impl PolicyClient for SimClient {
         })
     }
     async fn output(&self, _to: Url, result: Result<Literal, OutputError>) -> Result<(), RpcErr> {
+        let gated = self.hub.lock().unwrap().gate_outputs;
+        let mut lost_response = false;
+        if gated {
+            match self.gate("output", self.me).await {
+                Verdict::FailBefore => return Err(RpcErr("output: request lost".into())),
+                Verdict::FailAfter => lost_response = true,
+                _ => {}
+            }
+        }
         let mut g = self.hub.lock().unwrap();
         let seq = g.seq;
         let r = match result {
@@ -413,6 +436,32 @@ impl PolicyClient for SimClient {
             seq,
             ord,
         });
+        let armed = g.cancel_on_output.iter().position(|a| a.0 == self.me && a.1 == self.comp).map(|i| g.cancel_on_output.remove(i));
+        let handle = g.handles[self.me].get(&self.comp).cloned();
+        drop(g);
+        if let (Some((_, _, idx)), Some(h)) = (armed, handle) {
+            // poll the cancel future once right here: its first step enqueues the Cancel command
+            let mut fut: std::pin::Pin<Box<dyn std::future::Future<Output = Result<(), polytune_server_core::HandleError<_>>> + Send>> = Box::pin(h.cancel());
+            struct Noop;
+            impl std::task::Wake for Noop {
+                fn wake(self: Arc<Self>) {}
+            }
+            let waker = std::task::Waker::from(Arc::new(Noop));
+            let mut cx = std::task::Context::from_waker(&waker);
+            let hub = self.hub.clone();
+            match fut.as_mut().poll(&mut cx) {
+                std::task::Poll::Ready(r) => finish_call(&hub, idx, r.is_ok(), r.err().map(|e| format!("{e:?}")).unwrap_or_default()),
+                std::task::Poll::Pending => {
+                    tokio::spawn(async move {
+                        let r = fut.await;
+                        finish_call(&hub, idx, r.is_ok(), r.err().map(|e| format!("{e:?}")).unwrap_or_default());
+                    });
+                }
+            }
+        }
+        if lost_response {
+            return Err(RpcErr("output: response lost".into()));
+        }
         Ok(())
     }
 }
@@ -493,6 +542,7 @@ fn run_on_this_thread(spec: &ServerSpec) -> ServerRun {
     let hub: SharedHub = Arc::new(Mutex::new(Hub {
         handles: (0..n).map(|_| HashMap::new()).collect(),
         auto_msgs: spec.auto_msgs,
+        gate_outputs: spec.gate_outputs,
         ..Default::default()
     }));
     let sems: Arc<Vec<Arc<Semaphore>>> = Arc::new((0..n).map(|p| Arc::new(Semaphore::new(spec.concurrency[p]))).collect());
@@ -595,7 +645,7 @@ fn run_on_this_thread(spec: &ServerSpec) -> ServerRun {
         }
         let mut forced = None;
         for (i, done) in injections.iter() {
-            if !*done && (events as usize >= spec.injections[*i].after_events + spec.injections[*i].burst as usize) {
+            if !*done && !spec.injections[*i].burst_before && (events as usize >= spec.injections[*i].after_events + spec.injections[*i].burst as usize) {
                 forced = Some(Ev::Inject(*i));
                 break;
             }
@@ -622,6 +672,19 @@ fn run_on_this_thread(spec: &ServerSpec) -> ServerRun {
             let i = pick.unwrap_or_else(|| rng.random_range(0..enabled.len()));
             enabled[i].clone()
         };
+        if !matches!(ev, Ev::Inject(_)) {
+            let due: Vec<usize> = injections.iter().filter(|(i, d)| !*d && spec.injections[*i].burst_before && spec.injections[*i].after_events == events as usize).map(|(i, _)| *i).collect();
+            for i in due {
+                events += 1;
+                {
+                    let mut g = hub.lock().unwrap();
+                    g.seq = events;
+                    g.log.push(format!("[{events}] inject #{i} (burst, before the next event)"));
+                }
+                decisions.push(format!("inject #{i}"));
+                fire_injection(i, spec, n, &rt, &hub, &sems, &mut injections, &mut tasks, &record_call);
+            }
+        }
         events += 1;
         {
             let mut g = hub.lock().unwrap();
@@ -742,6 +805,7 @@ fn run_on_this_thread(spec: &ServerSpec) -> ServerRun {
 fn action_name(a: &Action) -> &'static str {
     match a {
         Action::Cancel { .. } => "cancel",
+        Action::CancelFromOutput { .. } => "cancel_from_output",
         Action::DupSchedule { .. } => "dup_schedule",
         Action::StrayRun { .. } => "stray_run",
         Action::StrayConsts { .. } => "stray_consts",
@@ -779,6 +843,10 @@ fn fire_injection(
                                 None => finish_call(&hub2, idx, false, "unknown computation".into()),
                             }
                         }));
+                    }
+                    Action::CancelFromOutput { party, comp } => {
+                        let idx = record_call(hub, "cancel", party, comp);
+                        hub.lock().unwrap().cancel_on_output.push((party, comp, idx));
                     }
                     Action::DupSchedule { party, comp } => {
                         let idx = record_call(&hub, "dup-schedule", party, comp);
